@@ -9,7 +9,7 @@
    (Gabriel; Carlsson - de Silva 2010; = generalised rank of Kim - Memoli / Dey - Kim - Memoli).
    Vectors over Z_2 are [list bool] read with [get] (a missing tail is zero), so equality is [veq] (pointwise). *)
 From Coq Require Import ZArith List Bool Arith Sorting.Permutation.
-Require Import C07_Model C07_Gauss C07_Proofs C07_Skip C07_Keyed.
+Require Import C07_Model C07_Gauss C07_Proofs C07_Skip.
 Import ListNotations.
 Open Scope Z_scope.
 
